@@ -246,7 +246,7 @@ class Checker:
                 m.auto_update = mode == "auto"
                 for step, (i, a) in enumerate(pre + walk[mode] if mode == "auto" else walk[mode]):
                     nm = names[i]
-                    _guard(b.assign, nm["name"], nm["lattice"][a], nm["via"])
+                    _guard(b.assign, nm["target"], nm["lattice"][a], nm["via"])
                     if mode == "manual":
                         _guard(m.update)
                     state[i] = a
